@@ -35,7 +35,8 @@ def drive(sc):
     else:
         vlb, vub = [-1.0, -INF, -INF], [3.0, 5.0, 2.0]
     cfg = {"variables": {"initial_values": [0.0, 1.0, 0.0], "lower_bounds": vlb, "upper_bounds": vub},
-           "optimizer": {"method": "rvscipy/" + method},
+           # (the method name is case-insensitive: every second scenario spells it in capitals)
+           "optimizer": {"method": "rvscipy/" + (method.upper() if (len(sc["nl"]) + len(sc["lin"]) + sc["maxit"]) % 2 else method)},
            "gradient": {"number_of_perturbations": 4, "perturbation_magnitudes": 0.01}}
     if masked:
         cfg["variables"]["mask"] = [True, False, True]
@@ -61,7 +62,7 @@ def drive(sc):
     e = {"ev": "Handed", "method": method, "mask": sc["mask"], "nl": sc["nl"], "lin": sc["lin"], "options": sc["options"],
          "narrow": bool(sc.get("narrow", False)),
          "maxit": sc["maxit"], "vlb": [q(b) for b in vlb], "vub": [q(b) for b in vub], "grid": GRID, "outcome": "ok",
-         "bounds": {"present": False, "lb": [], "ub": []}, "rows": [], "objs": [], "opt": {"maxiter": -1, "maxfun": -1}}
+         "bounds": {"present": False, "lb": [], "ub": []}, "rows": [], "objs": [], "opt": {"maxiter": -1, "maxfun": -1}, "jacseq": []}
 
     # transforms as an orthogonal switch (every second scenario of the gradient-based / gradient-free methods): the grid
     # points are user-domain points, handed over in optimizer coordinates; recorded bounds are mapped back
@@ -128,10 +129,43 @@ def drive(sc):
     if outcome == "exc:NotImplementedError":
         outcome = "rejected"
     e["outcome"] = outcome
+    e["jacseq"] = jacobian_sequence(sc["nl"][0], method) if method == "slsqp" and nnl and sc["nl"][0] != "none" else []
     kinds = set(sc["nl"]) | set(sc["lin"])
     feats = {"nontrivial": bool(len(kinds - {"none"}) >= 2 or (masked and any(k != "none" for k in sc["lin"][:2]))),
              "key": str(sc), "method": method, "options": sc["options"], "maxit": sc["maxit"], "rejected": outcome == "rejected"}
     return [e], feats
+
+
+def jacobian_sequence(kind, method):
+    """Constraint Jacobians requested at three points in a row (no value request in between), for a QUADRATIC constraint of the
+    given bound kind: each must be the derivative at the point it was requested for (compared with central differences of the
+    very same handed-over function, which are exact for a quadratic; tolerance for the stochastic estimate)."""
+    cfg = {"variables": {"initial_values": [0.0, 1.0, 0.0]}, "optimizer": {"method": "rvscipy/" + method},
+           "gradient": {"number_of_perturbations": 6, "perturbation_magnitudes": 0.001},
+           "nonlinear_constraints": {"lower_bounds": [KB[kind][0]], "upper_bounds": [KB[kind][1]]}}
+
+    def evaluator(variables, context):
+        return EvaluatorResult(objectives=variables.sum(axis=1, keepdims=True),
+                               constraints=(variables[:, 0] ** 2 + variables[:, 1] - 2.0 * variables[:, 2] ** 2)[:, None])
+    points = [np.array(p, dtype=np.float64) for p in ([1.0, 1.0, 0.0], [-2.0, 1.0, 1.0], [3.0, 0.0, -1.0])]
+    verdicts = []
+
+    def script(kw):
+        rows = kw.get("constraints") or []
+        jacs = [[np.asarray(c["jac"](p), dtype=np.float64).reshape(-1) for p in points] for c in rows]
+        for c, js in zip(rows, jacs):
+            for p, j in zip(points, js):
+                central = []
+                for v in range(3):
+                    up, dn = p.copy(), p.copy()
+                    up[v] += 1.0; dn[v] -= 1.0
+                    central.append((float(np.asarray(c["fun"](up)).reshape(-1)[0]) - float(np.asarray(c["fun"](dn)).reshape(-1)[0])) / 2.0)
+                verdicts.append(bool(np.allclose(j, central, atol=0.05)))
+    plan = Plan(OptimizerContext(evaluator=evaluator, plugin_manager=manager_with_logging()))
+    step = plan.add_step("optimizer")
+    with patched(script=script):
+        _, outcome = outcome_of(lambda: plan.run_step(step, config=cfg))
+    return verdicts if outcome == "ok" and verdicts else [False]
 
 
 def model_runs(tier):
